@@ -1301,6 +1301,48 @@ def b_grid_sampling(S):
         slice_from="if traces.empty", default_num="Rat", join="tuple")
 
 
+def b_intersects_loop(S):
+    """the node loop of `determine_intersects`: per X/Y node whether it touches the traces of either set; a node touching neither is a ValueError;
+    `determine_intersect` decides the ordered pair, and when IT raises the node is recorded with the unordered pair and error=True; one row per node."""
+    src0 = S[REL]
+    fn = find_func(ast.parse(src0), "determine_intersects")
+    calls = [n for n in ast.walk(fn) if isinstance(n, ast.Call) and ast.unparse(n.func) == "determine_intersect"]
+    want = {"node": "node", "node_class": "node_class", "l1": "l1", "l2": "l2", "first_set": "first_set", "second_set": "second_set", "first_setpointtree": "first_setpointtree",
+            "buffer_value": "buffer_value"}
+    if len(calls) != 1 or calls[0].args or {k.arg: ast.unparse(k.value) for k in calls[0].keywords} != want:
+        raise Untranslatable("determine_intersects: call of determine_intersect changed")
+    dicts = [n for n in ast.walk(fn) if isinstance(n, ast.Assign) and ast.unparse(n.targets[0]) == "addition" and isinstance(n.value, ast.Dict)]
+    if len(dicts) != 1 or {ast.literal_eval(k): ast.unparse(v) for k, v in zip(dicts[0].value.keys, dicts[0].value.values)} != {
+            "node": "node", "nodeclass": "node_class", "sets": "set_names_two_sets", "error": "True"}:
+        raise Untranslatable("determine_intersects: the error row changed")
+    src = standalone(src0, "determine_intersects", [
+        (r"addition = \{\n\s*\"node\": node,\n\s*\"nodeclass\": node_class,\n\s*\"sets\": set_names_two_sets,\n\s*\"error\": True,\n\s*\}", "addition = ERRORROW"),
+        (r"\n    node: Point\n    node_class: str\n", "\n"),
+    ])
+    if len(re.findall(r"\bERRORROW\b", src)) != 1:
+        raise Untranslatable("determine_intersects: rewriting of the error row failed")
+    ctxt = ast.get_source_segment(src0, calls[0])
+    import textwrap
+    ctxt_d = re.sub(r"\s+", " ", ctxt)
+    C = {"zip(node_series_xy_intersects, node_types_xy_intersects)": "(List.zip node_series_xy_intersects node_types_xy_intersects)",
+         "first_set_prep.intersects(node.buffer(buffer_value))": "(touches1 node)", "second_set_prep.intersects(node.buffer(buffer_value))": "(touches2 node)",
+         "ERRORROW": "(node, node_class, set_names_two_sets, true)"}
+    T = {"zip(node_series_xy_intersects, node_types_xy_intersects)": "List (N × String)", "first_set_prep.intersects(node.buffer(buffer_value))": "Bool",
+         "second_set_prep.intersects(node.buffer(buffer_value))": "Bool", "l1": "Bool", "l2": "Bool", "ERRORROW": "N × String × (String × String) × Bool",
+         "addition": "N × String × (String × String) × Bool", "additions": "List (N × String × (String × String) × Bool)", "node": "N", "node_class": "String"}
+    # the call of determine_intersect: an Option-valued oracle (none = it raised ValueError) giving the whole row
+    fn2 = find_func(ast.parse(src), "determine_intersects")
+    call2 = [n for n in ast.walk(fn2) if isinstance(n, ast.Call) and ast.unparse(n.func) == "determine_intersect"][0]
+    t2 = ast.get_source_segment(src, call2)
+    C[t2] = "(Option.map (fun sets => (node, node_class, sets, false)) (intersect_ node node_class l1 l2))"
+    T[t2] = "Option (N × String × (String × String) × Bool)"
+    return translate_function(
+        src, "determine_intersects", "determine_intersects_rows", {"set_names_two_sets": "String × String", "node_series_xy_intersects": "List N", "node_types_xy_intersects": "List String"},
+        "List (N × String × (String × String) × Bool)", C, types=T, raises=True,
+        extra_params=[("{N}", "Type"), ("touches1", "N → Bool"), ("touches2", "N → Bool"), ("intersect_", "N → String → Bool → Bool → Option (String × String)")],
+        slice_from="additions = []", slice_to="additions_df = pd.DataFrame(additions)", returns_var="additions", default_num="Nat", join="tuple")
+
+
 def b_determine_intersect(S):
     """`determine_intersect`: which ordered pair of sets an X/Y node between two sets is recorded under, or ValueError"""
     fn = find_func(ast.parse(S[REL]), "determine_intersect")
@@ -1978,6 +2020,7 @@ ITEMS: List[Item] = [
     Item("IndexMargins", GENERAL, ["C16"], b_index_margins, extra_modules=[PROX]),
     Item("Cli", CLI, ["C19"], b_cli),
     Item("DetermineIntersect", REL, ["C12"], b_determine_intersect),
+    Item("IntersectsLoop", REL, ["C12"], b_intersects_loop),
     Item("RelationshipLoop", REL, ["C12"], b_relationship_loop, extra_modules=[GENERAL]),
     Item("Windows", TVALS, ["C10", "C03", "C06"], b_windows, extra_modules=[BAN]),
     Item("RandomRadius", RSAMP, ["C20"], b_random_radius, extra_modules=[GENERAL]),
